@@ -242,10 +242,28 @@ def real_learners(ctx, rng, count):
                         ctx.violation("LabelsInClasses", SITE_C, "real learner", "predicted label outside classes_")
                 if not all(numpy.allclose(outs[0], o, atol=1e-9) for o in outs[1:]):
                     ctx.violation("ScheduleIndependent", SITE_C, "real learner n_jobs", "predict_proba differs with n_jobs")
+                # the features are counts: the same rows in an integer array reach the same buckets and the same local models
+                Xi = X.astype(numpy.int64)
+                if not (numpy.allclose(c.predict_proba(Xi), pa, atol=1e-9) and numpy.array_equal(c.predict(Xi), pl)):
+                    ctx.violation("Dispatch", SITE_C, "real learner integer dtype batch", "outputs differ when the same rows are given as int64")
+                # a local classifier whose predict is not the arg max of its predict_proba (Platt scaling): the label is the
+                # local model's label
+                from sklearn.svm import SVC
+                sv = PiecewiseClassifier(binner=DecisionTreeClassifier(max_depth=1, random_state=0),
+                                         estimator=SVC(probability=True, random_state=0), random_state=seed).fit(X, yc)
+                assoc = sv.transform_bins(X)
+                want = numpy.array([int((sv.estimators_[int(j)] if j >= 0 and sv.estimators_[int(j)] is not None else sv.mean_estimator_)
+                                        .predict(X[i_:i_ + 1])[0]) for i_, j in enumerate(assoc)])
+                if not numpy.array_equal(sv.predict(X).astype(int), want):
+                    ctx.violation("Dispatch", SITE_C, "real learner predict is the local model's predict",
+                                  "labels differ from the bucket model's own predict (SVC with probability=True)")
                 ro = [PiecewiseRegressor(binner=DecisionTreeRegressor(max_depth=2, random_state=0), estimator=LinearRegression(), n_jobs=nj).fit(X, yr).predict(X)
                       for nj in (None, 3)]
                 if not numpy.allclose(ro[0], ro[1], atol=1e-9):
                     ctx.violation("ScheduleIndependent", SITE_R, "real learner n_jobs", "predict differs with n_jobs")
+                rg = PiecewiseRegressor(binner=DecisionTreeRegressor(max_depth=2, random_state=0), estimator=LinearRegression()).fit(X, yr)
+                if not numpy.allclose(rg.predict(X.astype(numpy.int64)), rg.predict(X), atol=1e-9):
+                    ctx.violation("Dispatch", SITE_R, "real learner integer dtype batch", "outputs differ when the same rows are given as int64")
             except Exception as e:
                 ctx.violation("FitSucceeds", SITE_C, "real learner", repr(e))
 
